@@ -84,6 +84,9 @@ class Opaque:
         self.what = what
 
 
+ROWS = Opaque('n')          # the (symbolic) number of rows of every tensor of a batch
+
+
 class Builtin:
     def __init__(self, name):
         self.name = name
@@ -131,11 +134,15 @@ class Module:
         self.src = open(path).read()
         self.tree = ast.parse(self.src)
         self.classes, self.funcs, self.imports = {}, {}, {}
+        self.lambdas = {}          # module-level `NAME = lambda ...`
         for node in self.tree.body:
             if isinstance(node, ast.ClassDef):
                 self.classes[node.name] = ClassVal(node, self)
             elif isinstance(node, ast.FunctionDef):
                 self.funcs[node.name] = node
+            elif isinstance(node, ast.Assign) and len(node.targets) == 1 and isinstance(node.targets[0], ast.Name) \
+                    and isinstance(node.value, ast.Lambda):
+                self.lambdas[node.targets[0].id] = node.value
             elif isinstance(node, ast.Import):
                 for a in node.names:
                     self.imports[a.asname or a.name.split('.')[0]] = Builtin(a.name if a.asname else a.name.split('.')[0])
@@ -256,6 +263,12 @@ class Interp:
                 self.assign(t, val, env)
             return
         if isinstance(s, ast.AugAssign):
+            if isinstance(s.target, ast.Attribute):
+                obj = self.eval(s.target.value, env)
+                if not isinstance(obj, Obj) or s.target.attr not in obj.attrs:
+                    self.err(s, 'augmented assignment to an unknown attribute')
+                obj.attrs[s.target.attr] = self.binop(s, type(s.op), obj.attrs[s.target.attr], self.eval(s.value, env))
+                return
             if not isinstance(s.target, ast.Name):
                 self.err(s, 'augmented assignment to non-name')
             cur = self.eval(s.target, env)
@@ -353,6 +366,8 @@ class Interp:
                 return self.mod.classes[n.id]
             if n.id in self.mod.funcs:
                 return Closure(self.mod.funcs[n.id], {}, self)
+            if n.id in self.mod.lambdas:
+                return self.eval(self.mod.lambdas[n.id], {})
             if n.id in self.mod.imports:
                 return self.mod.imports[n.id]
             if n.id in ('len', 'sum', 'zip', 'enumerate', 'range', 'isinstance', 'getattr', 'set', 'super',
@@ -428,18 +443,24 @@ class Interp:
         return out
 
     def comprehension(self, n, env):
-        if len(n.generators) != 1:
-            self.err(n, 'nested comprehension not accepted')
-        g = n.generators[0]
-        it = self.eval(g.iter, env)
-        if not isinstance(it, (list, tuple)):
-            self.err(n, 'comprehension over a non-concrete iterable')
         out = []
-        for item in it:
-            e2 = dict(env)
-            self.assign(g.target, item, e2)
-            if all(self.truth(c, e2) for c in g.ifs):
+
+        def rec(gi, e2):
+            if gi == len(n.generators):
                 out.append(self.eval(n.elt, e2))
+                return
+            g = n.generators[gi]
+            it = self.eval(g.iter, e2)
+            if isinstance(it, Matrix):
+                it = list(it.cols)
+            if not isinstance(it, (list, tuple)) or ir.is_term(it):
+                self.err(n, 'comprehension over a non-concrete iterable')
+            for item in it:
+                e3 = dict(e2)
+                self.assign(g.target, item, e3)
+                if all(self.truth(c, e3) for c in g.ifs):
+                    rec(gi + 1, e3)
+        rec(0, env)
         return out
 
     def compare(self, n, env):
@@ -514,10 +535,12 @@ class Interp:
         if ir.is_term(base) or isinstance(base, (Matrix, NetOut)):
             if a == 'shape':
                 if isinstance(base, Matrix):
-                    return (Opaque('n'), len(base.cols))
+                    return (ROWS, len(base.cols))
                 if isinstance(base, NetOut):
-                    return (Opaque('n'), base.width)
-                return (Opaque('n'), 1)
+                    return (ROWS, base.width)
+                return (ROWS, 1)
+            if a == 'requires_grad':
+                return Opaque('requires_grad')
             return ('%tmethod', base, a)
         if isinstance(base, ColSel):
             return ('%tmethod', base, a)
@@ -548,6 +571,13 @@ class Interp:
         # tensor[:, k]  /  tensor[0, 0]
         if isinstance(sl, ast.Tuple) and len(sl.elts) == 2:
             e0, e1 = sl.elts
+            if isinstance(e0, ast.Slice) and e0.lower is None and e0.upper is None and e0.step is None \
+                    and isinstance(e1, ast.Slice) and e1.step is None and e1.lower is not None and e1.upper is not None:
+                lo, hi = self.eval(e1.lower, env), self.eval(e1.upper, env)
+                cols = base.cols if isinstance(base, Matrix) else [base] if ir.is_term(base) else None
+                if cols is None or not (isinstance(lo, int) and isinstance(hi, int)) or not 0 <= lo <= hi <= len(cols):
+                    self.err(n, 'column slice not accepted')
+                return Matrix(cols[lo:hi])
             if isinstance(e0, ast.Slice) and e0.lower is None and e0.upper is None and e0.step is None:
                 k = self.eval(e1, env)
                 if isinstance(base, (NetOut, Matrix)) and (isinstance(k, SymInt) or isinstance(k, int) and not isinstance(k, bool)):
@@ -692,6 +722,11 @@ class Interp:
             return None
         if isinstance(f, ClassVal):
             return self.instantiate(f.name, *args, **kwargs)
+        if isinstance(f, Obj):
+            fn, owner = self.find_method(f.cls, '__call__')
+            if fn is None:
+                self.err(n, f'object of class {f.cls.name} is not callable')
+            return self.call_function(fn, [f] + args, kwargs, {}, owner=owner)
         if isinstance(f, Builtin):
             return self.builtin(n, f.name, args, kwargs)
         self.err(n, f'call of {type(f).__name__} not accepted')
@@ -735,6 +770,8 @@ class Interp:
                 self.err(n, 'ones_like of a non-tensor')
             if kwargs == {'requires_grad': True}:
                 return OnesLeaf()
+            if set(kwargs) == {'requires_grad'} and isinstance(kwargs['requires_grad'], Opaque):
+                return ('cst', 1)      # a constant column of ones (its derivative is zero either way)
             if kwargs:
                 self.err(n, f'ones_like keywords {sorted(kwargs)} not accepted')
             return ('cst', 1)
@@ -742,6 +779,21 @@ class Interp:
             if len(args) != 1 or (kwargs and kwargs != {'requires_grad': True}):
                 self.err(n, 'zeros_like usage')
             return ('cst', 0)
+        if name == 'torch.sum':
+            if len(args) != 1 or kwargs != {'dim': 1, 'keepdim': True}:
+                self.err(n, 'torch.sum must be called as torch.sum(x, dim=1, keepdim=True)')
+            cols = args[0].cols if isinstance(args[0], Matrix) else [self.tens(n, args[0])]
+            acc = cols[0]
+            for c in cols[1:]:
+                acc = ('add', acc, c)
+            return acc
+        if name == 'torch.tensor':
+            vals = args[0]
+            if not isinstance(vals, (list, tuple)) or not all(isinstance(v, (int, float)) and not isinstance(v, bool) for v in vals):
+                self.err(n, 'torch.tensor of a non-numeric-list')
+            if set(kwargs) - {'dtype'}:
+                self.err(n, 'torch.tensor keywords')
+            return Matrix([ir.const(v) for v in vals])
         if name == 'torch.cat':
             dim = kwargs.get('dim', args[1] if len(args) > 1 else 0)
             if dim != 1 or not isinstance(args[0], (list, tuple)):
